@@ -193,8 +193,6 @@ class Linearizer:
                 deps.add(("C", x[3]))
             elif x[0] == "local":
                 deps.add(("L", x[1]))
-            elif x[0] == "via" and len(x) > 3 and isinstance(x[3], int):
-                deps.add(("C", x[3]))
         from .expr import show
         key = ("O", show(e)[:160], tuple(sorted(deps)))
         return Lin(0, {key: 1}, deps)
